@@ -14,7 +14,10 @@ shapes + provenance of regex-group captures + constant propagation); helpers are
   C06.R4  a file without start/end tags is rejected with PumlParsingError; with tags exactly the text between them is scanned
           (decided by folding the tag slicing - regex or str.find/partition/... - on a table of file contents)
   C06.R5  a declaration with an alias and an alias-free declaration of the same component stay distinct until the alias map is
-          built (the declaration pattern also matches a bracketed name at the end of an arrow line)
+          built (the declaration pattern also matches a bracketed name at the end of an arrow line): records in sets / dict keys
+          compare on the alias too; and however the declarations are collected (dict name -> alias, list + set of seen names,
+          ...), at least one place that records the alias while the matches are read runs although the name was mentioned
+          before (no first-mention-wins: setdefault, `if name not in ...`) and is not overwritten with None by a later mention
   C06.R6  parse is history-free: no location that outlives a call of `parse` (attribute of the parser object, class-level or
           module-level variable, memoised object, mutable default) is read before this call has re-initialised it on every path
           while the call tree of `parse` writes input-dependent or accumulated content into it (rules/c06_state.py: a flow-sensitive
@@ -50,6 +53,8 @@ TAGGED = f"some text\n[X] --> [Y]\n@startuml{BODY}@enduml\ntrailing\n[P] --> [Q]
 # further accepted layouts: (what, file content); the text between the tags is BODY in all of them
 ACCEPTED_MORE = [
     ("a diagram followed by text that mentions @startuml", f"intro\n@startuml{BODY}@enduml\nsee the @startuml reference\n[P] --> [Q]\n"),
+    # (what, content, text between the tags when it is not BODY)
+    ("a single line break between the tags (an empty diagram)", "intro\n@startuml\n@enduml\n", "\n"),
 ]
 REJECTED = [
     ("no tags at all", "just text\n[A] --> [B]\n"),
@@ -59,6 +64,7 @@ REJECTED = [
     ("the end tag before the start tag", "@enduml\n[A] --> [B]\n@startuml\n"),
     ("a start tag without end tag after a text that mentions @enduml", "intro: diagrams end with @enduml\n@startuml\n[A] --> [B]\n"),
     ("nothing between adjacent tags", "@startuml@enduml"),
+    ("nothing between adjacent tags after some text", "intro\n@startuml@enduml\n"),
 ]
 
 
@@ -1024,7 +1030,8 @@ def check_tags(repo: Repo, res: Result, parser: ClassInfo, error_cls: ClassInfo,
         return parse_key, parse_where
 
     # accepted content: exactly the text between the tags is scanned
-    for what, content in ACCEPTED_MORE:
+    for what, content, *rest in ACCEPTED_MORE:
+        body = rest[0] if rest else BODY
         interp, _v, completed = interpret(repo, parser, A.const(content))
         construct = f"{parse_key}::content between the tags [{what}]"
         subjects = [s for s in interp.sites.values() if s.pattern.text in line_patterns]
@@ -1037,11 +1044,11 @@ def check_tags(repo: Repo, res: Result, parser: ClassInfo, error_cls: ClassInfo,
             res.undecide("C06.R4", construct, f"the text scanned for declarations / arrows is not determined by folding the tag slicing (unmodelled: {interp.unknown[:3]}; may raise: {sorted({r.name for r in hard})})", parse_where)
         else:
             seen = sorted({v for s in subjects for v in s.subject.values() if v is not None}, key=repr)
-            want_lines = {l.strip() for l in BODY.splitlines() if l.strip()}
+            want_lines = {l.strip() for l in body.splitlines() if l.strip()}
             got_lines = {l.strip() for v in seen if isinstance(v, str) for l in v.splitlines() if l.strip()}
             ok = all(isinstance(v, str) for v in seen) and got_lines == want_lines
             skey, swhere = slicing_site(interp)
-            res.add("C06.R4", construct if ok else skey + f" [{what}]", ok, "the text between the start tag and the last end tag is scanned" if ok else f"for a file with {what} the text scanned for declarations / arrows is {seen!r}, not the diagram between the tags ({BODY!r}): the start tag is not searched before the end tag" + (" - an empty diagram is returned silently" if not got_lines else ""), parse_where if ok else swhere, kind="regex-language")
+            res.add("C06.R4", construct if ok else skey + f" [{what}]", ok, "the text between the start tag and the last end tag is scanned" if ok else f"for a file with {what} the text scanned for declarations / arrows is {seen!r}, not the diagram between the tags ({body!r}): the start tag is not searched before the end tag" + (" - an empty diagram is returned silently" if not got_lines and want_lines else ""), parse_where if ok else swhere, kind="regex-language")
     interp, _v, completed = interpret(repo, parser, A.const(TAGGED))
     construct = f"{parse_key}::content between the tags"
     subjects = [s for s in interp.sites.values() if s.pattern.text in line_patterns]
